@@ -90,7 +90,7 @@ spec("C05_ledger", "CacheWeight::update against the sweeper's CacheWeight::delet
 M = "MicroProofs"
 spec("C05_micro", "Accounting under every interleaving of the micro steps of puts, deletes and reads (calls split at every schedule point)", [M], [
     (M, "mcall_atomic", None), (M, "mdelete_atomic", None), (M, "minv_step", None), (M, "minv_run", None),
-    (M, "micro_accounting_exact", None), (M, "racing_puts_one_wins", None),
+    (M, "micro_accounting_exact", None), (M, "racing_puts_one_wins", None), (M, "micro_schedule_refines", None),
 ])
 spec("C04_micro", "Delete split at its schedule points: the mark hides the key under every interleaving of micro steps", [M], [
     (M, "micro_soft_deleted_stays_hidden", None), (M, "mcall_atomic", None), (M, "mdelete_atomic", None),
@@ -111,7 +111,7 @@ spec("C02_micro", "Reads split at their schedule points", [M], [
     (M, "mcall_atomic", None), (M, "micro_soft_deleted_stays_hidden", "deleted_value_never_returned_micro"),
 ])
 spec("C11_micro", "Writes split between building the command and sending it", [M], [
-    (M, "mcall_atomic", None), (M, "mdelete_atomic", None),
+    (M, "mcall_atomic", None), (M, "mdelete_atomic", None), (M, "micro_schedule_refines", None),
 ])
 spec("C01", "Total weight never exceeds the configured cache weight", [I, A], [
     (A, "used_bounded_step", None), (A, "used_bounded_run", None), (I, "used_nonneg", None),
